@@ -95,3 +95,7 @@ func AssertLockset(label string) {}
 
 // Native reports whether the harness runs natively (replay) rather than under the engine.
 func Native() bool { return false }
+
+// CborFor returns the bytes of an arbitrary CBOR document for the type of *dst (engine: a token that the cbor model
+// decodes as "anything a decoder can produce in *dst"; native replay: real CBOR bytes built from the solver's model).
+func CborFor(dst interface{}, name string) []byte { return nil }
